@@ -205,7 +205,8 @@ def make_case(rng: random.Random) -> Dict[str, Any]:
     for hist in hists.values():
         for i, r in enumerate(hist["rows"]):
             if rng.random() < 0.5:
-                r["notes"] = f"note {i} of {hist['asset']}"
+                # free text: plain, non-ASCII, quotes / separators, looks like a number or a table keyword, long
+                r["notes"] = rng.choice((f"note {i} of {hist['asset']}", f"caf\u00e9 \u2615 \u65e5\u672c {i}", f'"quoted", semi;colon, tab\there {i}', f"{i}", "TABLE END", "IN", f"x{i} " + "very long " * 30))
     apply_layout_to_rows(hists, layout)
     return {"hists": hists, "layout": layout, "sheet_order": rng.sample(sorted(hists), len(hists)), "writer_seed": rng.randint(0, 10**9)}
 
